@@ -223,11 +223,38 @@ def panicIndexFrom (th : Thread) (k : Nat) : List Op → Option Nat
 
 /-! ### Counter sample table (`counters.rs`) -/
 
+/-- A counter value. `CounterSamples.count` is a `Vec<f64>` (`counters.rs:95`); the code never computes with
+the values (it stores, permutes and hands them to the serializer), so the model keeps every `f64` as a token:
+an integer-valued one (|v| ≤ 2^53, not `-0.0`) by its value, `-0.0` by name, every other one (fractions,
+subnormals, huge values, NaN, ±inf) by its IEEE-754 bit pattern. `null` occurs in outputs only: it is what
+`serde_json` writes for a non-finite `f64` (JSON has no such number). -/
+inductive CVal
+  | int (v : Int)
+  | negZero
+  | bits (b : Nat)
+  | null
+deriving Repr, DecidableEq
+
+/-- the integer value of an integer-valued token (0 for the others); used for the `count` total -/
+def CVal.intPart : CVal → Int
+  | .int v => v
+  | _ => 0
+
+/-- exponent field all ones = NaN / ±inf -/
+def CVal.isFinite : CVal → Bool
+  | .bits b => (b / 4503599627370496) % 2048 != 2047
+  | .null => false
+  | _ => true
+
+/-- `serde_json`'s `serialize_f64` (`Number::from_f64(x).map_or(Value::Null, …)`; the writer prints `null`):
+finite numbers are written as they are, NaN / ±inf become `null` -/
+def CVal.json (v : CVal) : CVal := if v.isFinite then v else .null
+
 structure CounterSamples where
   time : List Nat
   number : List Nat
-  /-- `f64` in Rust; the check uses integer values only -/
-  count : List Int
+  /-- `f64` in Rust -/
+  count : List CVal
   isSorted : Bool
   lastTs : Nat
 deriving Repr, DecidableEq
@@ -236,7 +263,7 @@ deriving Repr, DecidableEq
 def CounterSamples.new : CounterSamples := ⟨[], [], [], true, 0⟩
 
 /-- `CounterSamples::add_sample` (`counters.rs:113-127`) -/
-def CounterSamples.addSample (c : CounterSamples) (t : Nat) (value : Int) (n : Nat) : CounterSamples :=
+def CounterSamples.addSample (c : CounterSamples) (t : Nat) (value : CVal) (n : Nat) : CounterSamples :=
   { time := c.time ++ [t]
     count := c.count ++ [value]
     number := c.number ++ [n]
@@ -246,15 +273,18 @@ def CounterSamples.addSample (c : CounterSamples) (t : Nat) (value : Int) (n : N
 /-- one `Profile::add_counter_sample` call -/
 structure COp where
   t : Nat
-  value : Int
+  value : CVal
   n : Nat
 deriving Repr, DecidableEq
 
-def runC (ops : List COp) : CounterSamples :=
-  ops.foldl (fun c op => c.addSample op.t op.value op.n) CounterSamples.new
+def runCFrom (c : CounterSamples) (ops : List COp) : CounterSamples :=
+  ops.foldl (fun c op => c.addSample op.t op.value op.n) c
 
+def runC (ops : List COp) : CounterSamples := runCFrom CounterSamples.new ops
+
+/-- what the JSON shows of a counter table (`count` after `serde_json`'s treatment of non-finite numbers) -/
 structure COut where
-  count : List Int
+  count : List CVal
   number : List Nat
   deltas : List Nat
 deriving Repr, DecidableEq
@@ -264,14 +294,14 @@ def CounterSamples.serializeWith (c : CounterSamples) (idx : List Nat) : Option 
   match permute c.count idx, permute c.number idx, permute c.time idx with
   | some cs, some ns, some ts =>
     match deltasFrom 0 ts with
-    | some ds => some ⟨cs, ns, ds⟩
+    | some ds => some ⟨cs.map CVal.json, ns, ds⟩
     | none => none
   | _, _, _ => none
 
 /-- `counters.rs:136-142` -/
 def CounterSamples.serializeSorted (c : CounterSamples) : Option COut :=
   match deltasFrom 0 c.time with
-  | some ds => some ⟨c.count, c.number, ds⟩
+  | some ds => some ⟨c.count.map CVal.json, c.number, ds⟩
   | none => none
 
 /-- `impl Serialize for CounterSamples` (`counters.rs:130-156`) -/
@@ -301,6 +331,11 @@ def logicalStep (rows : List LRow) : Op → List LRow
     | some r =>
       if r.cpu = 0 then rows.dropLast ++ [{ r with t := t, w := r.w + w }]
       else rows ++ [⟨t, r.stack, 0, w⟩]
+
+/-- the sample an `add` call adds, literally (`none` for the merge call) -/
+def Op.addRow? : Op → Option LRow
+  | .add t stack c w => some ⟨t, stack, c / 1000, w⟩
+  | .merge _ _ => none
 
 def logicalFrom (rows : List LRow) (ops : List Op) : List LRow := ops.foldl logicalStep rows
 
@@ -383,13 +418,20 @@ def specB (ops : List Op) (o : Obs) : Bool :=
 
 structure CRow where
   t : Nat
-  value : Int
+  value : CVal
   n : Nat
 deriving Repr, DecidableEq
 
-def logicalC (ops : List COp) : List CRow := ops.map fun op => ⟨op.t, op.value, op.n⟩
+/-- the counter samples as the caller added them -/
+def rowsC (ops : List COp) : List CRow := ops.map fun op => ⟨op.t, op.value, op.n⟩
 
-def mkCRows : List Nat → List Int → List Nat → List CRow
+/-- … and as a JSON document can show them: a non-finite value can only appear as `null` (the one excluded
+point of "keeps the counter value it was added with"; `CVal.json v = v` for every finite `v`) -/
+def CRow.json (r : CRow) : CRow := { r with value := r.value.json }
+
+def logicalC (ops : List COp) : List CRow := (rowsC ops).map CRow.json
+
+def mkCRows : List Nat → List CVal → List Nat → List CRow
   | t :: ts, v :: vs, n :: ns => ⟨t, v, n⟩ :: mkCRows ts vs ns
   | _, _, _ => []
 
@@ -398,11 +440,11 @@ def specCNat (ops : List COp) (o : COut) : Bool :=
   (o.count.length == ts.length && o.number.length == ts.length)
   && nondecreasing ts
   && (mkCRows ts o.count o.number).isPerm (logicalC ops)
-  && (o.count.sum == (ops.map (·.value)).sum)
+  && ((o.count.map CVal.intPart).sum == (ops.map (·.value.intPart)).sum)
   && (o.number.sum == (ops.map (·.n)).sum)
 
 structure CObs where
-  count : List Int
+  count : List CVal
   number : List Nat
   deltas : List Int
 deriving Repr, DecidableEq
